@@ -1,9 +1,9 @@
-\* thorough: adapters over {A,C,N} length 1..4, reads over {A,C,N,a} length 0..5
+\* thorough: adapters over {A,C,N} length 1..4, reads over {A,C,N} length 0..4
 CONSTANTS
   AAlpha = {65, 67, 78}
-  RAlpha = {65, 67, 78, 97}
+  RAlpha = {65, 67, 78}
   MaxA = 4
-  MaxR = 5
+  MaxR = 4
   Rates <- RatesThorough
   Ovls = {1, 2, 3}
 SPECIFICATION Spec
